@@ -140,12 +140,33 @@ example :
     [0, 1, 2, 126, 127, 128, 129, 200, 255].map (fun c => execStatus (c * 256)) = [0, 1, 2, 126, -1, 128, 129, 200, 255] ∧
     [15, 9, 11, 11 + 128, 6 + 128].map execStatus = [143, 137, 139, 139, 134] := by decide
 
-/-- A child whose `execvp` fails exits with `Model.execvpFailedStatus` = 127 whatever the reason (ENOENT, EACCES, ...):
-for the parent that is the fatal value -1, never a positive "ran and said no".  (Both 127s - the `_exit(127)` of the
-child and the `error == 127` of the parent - are constants written by hand in `Model/Scripts.lean`, not regenerated from
-util.c: a change of either in the source is noticed by the correspondence run only, this statement stays true.) -/
-theorem C13_execvp_failure_is_fatal : execStatus (execvpFailedStatus * 256) = -1 ∧ Proofs.waitKind (execvpFailedStatus * 256) = .exited 127 := by
+/-- A child whose `execvp` fails exits with `Gen.execChildExit` whatever the reason (ENOENT, EACCES, ...): for the parent
+that is the status `Gen.execFatalExit` it turns into the fatal value `Gen.execFatalValue`, which is negative - never a
+positive "ran and said no".  All three are regenerated from util.c `exec()` on every run (`tools/gen_tables.py`: the literal
+of `_exit(N)` after `execvp`, of `if (error == N) error = V`); `Model.execStatus` and `Model.execvpFailedStatus` are defined
+with them.  The statement is closed by evaluation of the generated table: changing the child's `_exit(127)` or the parent's
+`error == 127` / `error = -1` in the source (one without the other) makes it false. -/
+theorem C13_execvp_failure_is_fatal :
+    execvpFailedStatus = Gen.execChildExit ∧ Gen.execChildExit = Gen.execFatalExit ∧ Gen.execChildExit < 256 ∧
+    execStatus (Gen.execChildExit * 256) = Gen.execFatalValue ∧ Gen.execFatalValue < 0 ∧
+    Proofs.waitKind (Gen.execChildExit * 256) = .exited Gen.execFatalExit := by
   decide
+
+/-- The remaining literals of `exec()` as the source has them now (`Gen.exec*`, regenerated): a child killed by signal `g`
+gives `Gen.execSignalBase + g`, which is positive and above every exit code that can be mistaken for "exited 1..127";
+the three failure paths (`open("/dev/null")`, `fork`, `waitpid`) give `Gen.execCannotRunValue`, which is negative and is
+what the model's `execValue` returns there; a status that is neither "exited" nor "signalled" leaves the initial value
+`Gen.execInitialValue`, which is positive. -/
+theorem C13_exec_literals (f w : Res) :
+    Gen.execSignalBase = 128 ∧ Gen.execCannotRunValue < 0 ∧ 0 < Gen.execInitialValue ∧
+    Model.execValue false f w = Gen.execCannotRunValue ∧
+    (∀ e, Model.execValue true (.err e) w = Gen.execCannotRunValue) ∧
+    (∀ pid e, Model.execValue true (.ok pid) (.err e) = Gen.execCannotRunValue) ∧
+    (∀ g, Proofs.waitKind g = .signaled g → execStatus g = ((Gen.execSignalBase + g : Nat) : Int)) ∧
+    execStatus 127 = Gen.execInitialValue := by
+  refine ⟨by decide, by decide, by decide, by simp [Model.execValue], fun e => by simp [Model.execValue],
+    fun pid e => by simp [Model.execValue], fun g h => ?_, by decide⟩
+  rw [Proofs.execStatus_signaled h, Gen_execSignalBase_eq]
 
 /-- Reading the three results `exec()` consumes. -/
 theorem C13_child_outcome (d : Bool) (f w : Res) :
